@@ -98,9 +98,6 @@ def _direct_clear(term: Term, target: Term) -> bool:
     return False
 
 
-_CLEARING_CACHE: Dict[Tuple[int, str], List[FunctionInfo]] = {}
-
-
 def _calls_clearing(ev: Evaluator, term: Term, clearing: List[FunctionInfo], exclude: Optional[FunctionInfo] = None) -> bool:
     for cf in clearing:
         if cf is exclude:
@@ -119,9 +116,10 @@ def _calls_clearing(ev: Evaluator, term: Term, clearing: List[FunctionInfo], exc
 def clearing_functions(model: Model, memo: FunctionInfo) -> List[FunctionInfo]:
     """Package functions on whose every normal exit ``memo`` has been cleared: directly, or (fixed point) through a call
     of another clearing function."""
-    key = (id(model), memo.qualname)
-    if key in _CLEARING_CACHE:
-        return _CLEARING_CACHE[key]
+    cache = model.__dict__.setdefault("_clearing_cache", {})    # per model object (never keyed by id(): worker processes analyse many trees)
+    key = memo.qualname
+    if key in cache:
+        return cache[key]
     target = ("fn", memo.qualname)
     out: List[FunctionInfo] = []
     analysed: Dict[FunctionInfo, Tuple[Evaluator, List[Path]]] = {}
@@ -151,7 +149,7 @@ def clearing_functions(model: Model, memo: FunctionInfo) -> List[FunctionInfo]:
                 grew = True
         if not grew:
             break
-    _CLEARING_CACHE[key] = out
+    cache[key] = out
     return out
 
 
